@@ -3,6 +3,7 @@ package ipc
 import (
 	"fmt"
 	"go/constant"
+	"go/types"
 
 	"golang.org/x/tools/go/ssa"
 )
@@ -240,7 +241,24 @@ func runC09(c *Ctx) {
 		EachInstr(sw, func(i ssa.Instruction) {
 			if mu, ok := i.(*ssa.MapUpdate); ok {
 				n++
-				if PathOf(mu.Key) != "rangekey("+P(sw, 0)+")" || PathOf(mu.Value) != "rangeval("+P(sw, 0)+")" {
+				val := mu.Value
+				// a defensive copy of the value slice: append([]string(nil), v...) / append([]string{}, v...)
+				if call, isC := val.(*ssa.Call); isC {
+					if b, isB := call.Call.Value.(*ssa.Builtin); isB && b.Name() == "append" && len(call.Call.Args) == 2 {
+						empty := IsNilConst(call.Call.Args[0])
+						if sl, isSl := call.Call.Args[0].(*ssa.Slice); isSl {
+							if al, isAl := sl.X.(*ssa.Alloc); isAl {
+								if at, isArr := derefT(al.Type()).Underlying().(*types.Array); isArr && at.Len() == 0 {
+									empty = true
+								}
+							}
+						}
+						if empty {
+							val = call.Call.Args[1]
+						}
+					}
+				}
+				if PathOf(mu.Key) != "rangekey("+P(sw, 0)+")" || PathOf(val) != "rangeval("+P(sw, 0)+")" {
 					bad = "stores " + PathOf(mu.Key) + " → " + PathOf(mu.Value)
 				}
 			}
@@ -286,28 +304,55 @@ func runC09(c *Ctx) {
 				has = true
 			}
 		}
-		var del, store ssa.Instruction
+		// the filter loop: a range over a header map whose body deletes the ranged key under
+		// isHopByHopHeader(key); every path to the publication of the request (the insertion into
+		// the pending table) passes that loop
+		var loop *ssa.Range
 		EachInstr(sv, func(i ssa.Instruction) {
-			if IsCall(i, "(net/http.Header).Del") && del == nil {
-				if _, isC := ConstString(PArgs(CallOf(i))[1]); !isC {
-					del = i
+			if !IsCall(i, "(net/http.Header).Del") {
+				return
+			}
+			if _, isC := ConstString(PArgs(CallOf(i))[1]); isC {
+				return
+			}
+			guarded := false
+			for b := i.Block(); b != nil && !guarded; b = b.Idom() {
+				if ifi := BlockIf(b); ifi != nil && CallResult(ifi.Cond, 0, ModPath+"/server.isHopByHopHeader") != nil {
+					guarded = true
 				}
 			}
-			if IsCall(i, ModPath+"/server.newPendingRequest") {
-				store = i
+			if !guarded {
+				return
 			}
-		})
-		guarded := false
-		if del != nil {
-			for b := del.Block(); b != nil && !guarded; b = b.Idom() {
-				if ifi := BlockIf(b); ifi != nil {
-					if CallResult(ifi.Cond, 0, ModPath+"/server.isHopByHopHeader") != nil {
-						guarded = true
+			for _, r := range Roots(PArgs(CallOf(i))[1]) {
+				if ex, isE := r.(*ssa.Extract); isE {
+					if nx, isN := ex.Tuple.(*ssa.Next); isN {
+						if rg, isR := nx.Iter.(*ssa.Range); isR && NamedType(rg.X.Type()) == "net/http.Header" {
+							loop = rg
+						}
 					}
 				}
 			}
+		})
+		published := func(i ssa.Instruction) bool {
+			mu, isMU := i.(*ssa.MapUpdate)
+			if !isMU {
+				return false
+			}
+			_, fld, isF := FieldLoad(mu.Map)
+			return isF && fld == "requests"
 		}
-		okc := ok2 && has && del != nil && store != nil && guarded && blockReaches(del.Block(), store.Block()) && !blockReaches(store.Block(), del.Block())
+		okc := ok2 && has && loop != nil
+		if okc {
+			hit, _ := (&Walk{Target: published, Avoid: func(i ssa.Instruction) bool { return i == ssa.Instruction(loop) }, Ctx: sv}).FromBlock(sv.Blocks[0])
+			npub := 0
+			EachInstr(sv, func(i ssa.Instruction) {
+				if published(i) {
+					npub++
+				}
+			})
+			okc = hit == nil && npub >= 1
+		}
 		c.Check("C09.N", "proxy:connection-header-removed-before-storing", p, sv.Pos(), okc, "the stand-alone proxy deletes the hop-by-hop fields (Connection among them) of a client request before it stores the request for the agent", "the stand-alone proxy no longer removes Connection from client requests before storing them: a client can name "+hdrUserID+" in Connection and the agent's reverse proxy then drops the asserted identity on its way to the backend")
 	}
 	// nothing behind the filter writes the filtered fields: no header write (Set, Add, map store,
